@@ -216,6 +216,20 @@ def check(prop, tier):
                             kinds[v["kind"]] = kinds.get(v["kind"], 0) + 1
                             if kinds[v["kind"]] <= 5:
                                 rep.report(v, dict(kind="call", module="mc.enum_c18", case=v["case"]))
+    # the flag `evenly` given as a truthy / falsy value that is not a bool (1, 0: what a numpy
+    # comparison or an integer option yields)
+    for flag in (1, 0):
+        for ns in range(0, 4):
+            for nd in range(1, 4):
+                cases += 1
+                for choices, res in all_executions(
+                        lambda ch: run_randomly(ns, nd, flag, INF, ch)):
+                    execs += 1
+                    for v in judge_randomly(ns, nd, bool(flag), INF, choices, res):
+                        v["case"]["evenly"] = flag
+                        kinds[v["kind"]] = kinds.get(v["kind"], 0) + 1
+                        if kinds[v["kind"]] <= 5:
+                            rep.report(v, dict(kind="call", module="mc.enum_c18", case=v["case"]))
     for ns in range(0, 5):
         for ar in (False, True):
           for shape in ("list", "tuple", "iter", "chain", "gen"):
